@@ -122,42 +122,47 @@ fn gen_varfunc(ch: &mut Chooser) -> VarFunc {
 }
 
 fn gen_transform(ch: &mut Chooser) -> Option<Matrix4<f32>> {
-    match ch.choose("xf_kind", 4) {
-        0 => None,
-        1 => Some(Matrix4::new_translation(&Vector3::new(
+    if ch.choose("xf_none", 4) == 0 {
+        return None;
+    }
+    // independent ingredients, so that structured matrices (pure
+    // translation, pure perspective, rotation without translation, ...) are
+    // as likely as fully general ones
+    let mut m = Matrix4::identity();
+    if ch.flag("xf_has_rot") {
+        let axis = match ch.choose("xf_axis", 3) {
+            0 => Vector3::z(),
+            1 => Vector3::x(),
+            _ => Vector3::new(1.0, 2.0, 3.0).normalize(),
+        };
+        m = Matrix4::from_axis_angle(
+            &nalgebra::Unit::new_normalize(axis),
+            ch.float_sym("xf_rot", 3.0, 12),
+        );
+    }
+    if ch.flag("xf_has_scale") {
+        m *= Matrix4::new_nonuniform_scaling(&Vector3::new(
+            ch.float("xf_s", 0.5, 2.0, 6),
+            ch.float("xf_s", 0.5, 2.0, 6),
+            ch.float("xf_s", 0.5, 2.0, 6),
+        ));
+    }
+    if ch.flag("xf_has_translation") {
+        m = Matrix4::new_translation(&Vector3::new(
             ch.float_sym("xf_t", 2.0, 8),
             ch.float_sym("xf_t", 2.0, 8),
             ch.float_sym("xf_t", 2.0, 8),
-        ))),
-        k => {
-            let axis = match ch.choose("xf_axis", 3) {
-                0 => Vector3::z(),
-                1 => Vector3::x(),
-                _ => Vector3::new(1.0, 2.0, 3.0).normalize(),
-            };
-            let mut m = Matrix4::from_axis_angle(
-                &nalgebra::Unit::new_normalize(axis),
-                ch.float_sym("xf_rot", 3.0, 12),
-            );
-            m *= Matrix4::new_nonuniform_scaling(&Vector3::new(
-                ch.float("xf_s", 0.5, 2.0, 6),
-                ch.float("xf_s", 0.5, 2.0, 6),
-                ch.float("xf_s", 0.5, 2.0, 6),
-            ));
-            m = Matrix4::new_translation(&Vector3::new(
-                ch.float_sym("xf_t", 2.0, 8),
-                ch.float_sym("xf_t", 2.0, 8),
-                ch.float_sym("xf_t", 2.0, 8),
-            )) * m;
-            if k == 3 {
-                // projective row
-                m[(3, 0)] = ch.float_sym("xf_p", 0.05, 2);
-                m[(3, 1)] = ch.float_sym("xf_p", 0.05, 2);
-                m[(3, 2)] = ch.float_sym("xf_p", 0.05, 2);
-            }
-            Some(m)
+        )) * m;
+    }
+    if ch.odds("xf_has_projective_row", 1, 3) {
+        m[(3, 0)] = ch.float_sym("xf_p", 0.05, 2);
+        m[(3, 1)] = ch.float_sym("xf_p", 0.05, 2);
+        m[(3, 2)] = ch.float_sym("xf_p", 0.05, 2);
+        if ch.odds("xf_w", 1, 4) {
+            m[(3, 3)] = *ch.pick("xf_w_v", &[0.5f32, 2.0, 1.25]);
         }
     }
+    Some(m)
 }
 
 fn close(a: f32, b: f32) -> bool {
